@@ -48,7 +48,7 @@ CONSTANTS Codes,      \* status codes the upstream may use
           Record,     \* TRUE: keep the upstream's event history (generation)
           Dev
 
-AllKinds == {"ok", "refuse", "blackhole", "noread", "garbage", "badhdr", "badcl", "badchunk"}
+AllKinds == {"ok", "refuse", "blackhole", "noread", "lateread", "garbage", "badhdr", "badcl", "shortcl", "badchunk", "tecase"}
 
 (***************************************************************************)
 (* What the upstream can say                                               *)
@@ -73,7 +73,14 @@ ReplaceFirst(s, k, x) ==
   LET I == { i \in DOMAIN s : s[i].k = k } IN
   IF I = {} THEN s ELSE LET j == CHOOSE i \in I : \A i2 \in I : i <= i2 IN [s EXCEPT ![j] = x]
 
-GarbageForms == {"binary", "badcode", "nospace", "empty-line"}
+\* malformed / over-long lengths do not depend on the status code: one code (the smallest that may carry a body)
+LenResps == { x \in Resps : x.fr = "cl" /\ \A y \in Resps : y.fr = "cl" => (x.code <= y.code /\ Len(x.hdrs) <= Len(y.hdrs)) }
+GarbageForms == {"binary", "badcode", "nospace", "empty-line",
+                 \* status codes outside 100..599 / not a u16 / not a number of a defined class
+                 "code0", "code99", "code600", "code1000", "code65536"}
+BadClForms   == {"abc", "2^64", "-1", "empty"}
+\* Content-Length claims more than is ever sent: by 1, by a lot, and lengths that are no TLC integers
+ShortClForms == {"+1", "2^31-1", "2^32", "2^63-1", "2^64-1"}
 Scenarios ==
   { [kind |-> "ok", g |-> "", resp |-> r] : r \in IF "ok" \in Kinds THEN Resps ELSE {} }
   \cup { [kind |-> "refuse", g |-> "", resp |-> r] : r \in IF "refuse" \in Kinds THEN { CHOOSE x \in Resps : TRUE } ELSE {} }
@@ -81,7 +88,10 @@ Scenarios ==
   \cup { [kind |-> "noread", g |-> "", resp |-> r] : r \in IF "noread" \in Kinds THEN { CHOOSE x \in Resps : TRUE } ELSE {} }
   \cup { [kind |-> "garbage", g |-> g, resp |-> r] : g \in GarbageForms, r \in IF "garbage" \in Kinds THEN { CHOOSE x \in Resps : TRUE } ELSE {} }
   \cup { [kind |-> "badhdr", g |-> "", resp |-> r] : r \in IF "badhdr" \in Kinds THEN Resps ELSE {} }
-  \cup { [kind |-> "badcl", g |-> "", resp |-> r] : r \in IF "badcl" \in Kinds THEN { x \in Resps : x.fr = "cl" } ELSE {} }
+  \cup { [kind |-> "badcl", g |-> g, resp |-> r] : g \in BadClForms, r \in IF "badcl" \in Kinds THEN LenResps ELSE {} }
+  \cup { [kind |-> "shortcl", g |-> g, resp |-> r] : g \in ShortClForms, r \in IF "shortcl" \in Kinds THEN LenResps ELSE {} }
+  \cup { [kind |-> "tecase", g |-> g, resp |-> r] : g \in {"Chunked", "CHUNKED"}, r \in IF "tecase" \in Kinds THEN { x \in Resps : x.fr = "chunked" } ELSE {} }
+  \cup { [kind |-> "lateread", g |-> "", resp |-> r] : r \in IF "lateread" \in Kinds THEN Resps ELSE {} }
   \cup { [kind |-> "badchunk", g |-> "", resp |-> r] : r \in IF "badchunk" \in Kinds THEN { x \in Resps : x.fr = "chunked" } ELSE {} }
 
 ScnWire(sc) ==
@@ -91,7 +101,14 @@ ScnWire(sc) ==
     [] sc.kind = "noread"   -> <<>>        \* accepts, never reads the request, never answers
     [] sc.kind = "garbage"  -> <<S("garbage", sc.g, 0, 0)>>
     [] sc.kind = "badhdr"   -> InsertAt(Wire(sc.resp), 2, S("badhdr", "", 0, 0))
-    [] sc.kind = "badcl"    -> ReplaceFirst(Wire(sc.resp), "cl", S("badcl", "", 0, 0))
+    [] sc.kind = "tecase"   -> ReplaceFirst(Wire(sc.resp), "te", S("te", sc.g, 0, 0))   \* valid: Transfer-Encoding: Chunked
+    [] sc.kind = "lateread" -> Wire(sc.resp)   \* a valid answer from a target that starts reading the request late
+    [] sc.kind = "badcl"    -> ReplaceFirst(Wire(sc.resp), "cl", S("badcl", sc.g, 0, 0))
+    [] sc.kind = "shortcl"  -> LET n == Bytes(Cat(sc.resp.body)) IN
+                               ReplaceFirst(Wire(sc.resp), "cl",
+                                 CASE sc.g = "+1"     -> S("cl", "", n + 1, 0)
+                                   [] sc.g = "2^31-1" -> S("cl", "", 2147483647, 0)
+                                   [] OTHER           -> S("hugecl", sc.g, 0, 0))
     [] sc.kind = "badchunk" -> ReplaceFirst(Wire(sc.resp), IF sc.resp.body = <<>> THEN "last" ELSE "chunk", S("badchunk", "", 0, 0))
 
 (***************************************************************************)
@@ -134,7 +151,8 @@ CanRead  == Avail \/ Eof \/ TimedOut \/ ("GiveUpOnEmptyRead" \in Dev)
 CanConnect == ust # "blackhole" \/ TimedOut          \* the handshake of a black-holed target never completes
 \* write_all blocks when the target does not read and the request exceeds what the socket buffers take (pad > 0);
 \* it returns with an error at the deadline or when the target closes
-WriteBlocks == scn.kind = "noread" /\ req.pad > 0
+\* ("deaf": the target has accepted but is not reading; "noread" stays deaf, "lateread" starts reading later)
+WriteBlocks == ust = "deaf" /\ req.pad > 0
 CanWrite == ~WriteBlocks \/ TimedOut \/ ust = "closed"
 ProxyCanStep == pc \in {"strip", "map"} \/ (pc = "connect" /\ CanConnect) \/ (pc = "write" /\ CanWrite) \/ (pc = "read" /\ CanRead)
 Blocked  == (pc = "read" /\ ~CanRead) \/ (pc = "connect" /\ ~CanConnect) \/ (pc = "write" /\ ~CanWrite)
@@ -156,7 +174,7 @@ P_Connect ==
   /\ lastin' = IF ust = "blackhole" THEN "timeout" ELSE lastin
   /\ IF ust \in {"refusing", "blackhole"}
      THEN /\ ps' = Fail(ps, "err") /\ pc' = "map" /\ ust' = ust /\ hist' = hist
-     ELSE /\ ust' = "open" /\ pc' = "write" /\ ps' = ps
+     ELSE /\ ust' = (IF scn.kind \in {"noread", "lateread"} THEN "deaf" ELSE "open") /\ pc' = "write" /\ ps' = ps
           /\ hist' = IF Record THEN Append(hist, [e |-> "accept", i |-> 0, t |-> now]) ELSE hist
   /\ UNCHANGED <<uvars, upos, lastsend, cvars, puri, rpos, fwd, answer, now, armed>>
 
@@ -167,7 +185,7 @@ P_Write ==
          \* request.address.origin_addr.to_string(); Address's Display adds " (proxied)" when there are proxies
          v == IF "XffProxyAddr" \in Dev THEN "proxy"
               ELSE IF "XffDisplaySuffix" \in Dev /\ a.proxies # <<>> THEN a.origin \o " (proxied)" ELSE a.origin IN
-     fwd' = [m |-> req.m, uri |-> puri, q |-> req.q, ver |-> req.ver, body |-> req.body,
+     fwd' = [m |-> req.m, uri |-> puri, q |-> req.q, ver |-> req.ver, body |-> req.body, pad |-> req.pad,
              hdrs |-> IF "NoXff" \in Dev THEN ReqHdrs(req) ELSE Append(ReqHdrs(req), XffOf(v))]
   /\ IF WriteBlocks
      THEN /\ ps' = Fail(ps, "err") /\ pc' = "map"
@@ -215,8 +233,14 @@ Up_Send ==
   /\ upos' = upos + 1 /\ lastsend' = now
   /\ hist' = IF Record THEN Append(hist, [e |-> "send", i |-> upos + 1, t |-> now]) ELSE hist
   /\ UNCHANGED <<uvars, ust, cvars, puri, pc, ps, rpos, lastin, fwd, answer, now, armed>>
+\* the late reader starts to read the request
+Up_StartRead ==
+  /\ ust = "deaf" /\ scn.kind = "lateread" /\ pc # "done" /\ UpTurn
+  /\ ust' = "open"
+  /\ hist' = IF Record THEN Append(hist, [e |-> "read", i |-> 0, t |-> now]) ELSE hist
+  /\ UNCHANGED <<uvars, upos, lastsend, cvars, puri, pc, ps, rpos, lastin, fwd, answer, now, armed>>
 Up_Close ==
-  /\ ust = "open" /\ pc # "done" /\ UpTurn
+  /\ ust \in {"open", "deaf"} /\ pc # "done" /\ UpTurn
   /\ MayCut \/ upos = Len(uwire)
   /\ ust' = "closed"
   /\ hist' = IF Record THEN Append(hist, [e |-> "close", i |-> upos, t |-> now]) ELSE hist
@@ -229,7 +253,7 @@ Tick ==
   /\ now' = now + 1
   /\ UNCHANGED <<uvars, upos, ust, lastsend, cvars, puri, pc, ps, rpos, lastin, fwd, answer, armed, hist>>
 
-Next == ProxyStep \/ Up_Send \/ Up_Close \/ Tick
+Next == ProxyStep \/ Up_Send \/ Up_StartRead \/ Up_Close \/ Tick
 Spec == Init /\ [][Next]_vars /\ WF_vars(ProxyStep) /\ WF_vars(Tick)
 
 (***************************************************************************)
@@ -262,6 +286,6 @@ Live_Responds == <>(pc = "done")
 TypeOK ==
   /\ pc \in {"strip", "connect", "write", "read", "map", "done"}
   /\ rpos <= upos /\ upos <= Len(uwire)
-  /\ ust \in {"listening", "refusing", "blackhole", "open", "closed"}
+  /\ ust \in {"listening", "refusing", "blackhole", "open", "deaf", "closed"}
   /\ now \in 0..MaxNow
 =============================================================================
